@@ -63,10 +63,18 @@ class AttrMixin:
             raise Unsupported(f"attribute {name} of symbolic scalar")
         if isinstance(o, (SymSeq, SymMap, SymSet)):
             return self.symcoll_getattr(o, name)
+        tm = getattr(self, "type_models", {})
+        for pytype, model in tm.items():
+            if o is model:
+                o = pytype  # str.lower, dict.fromkeys, ...: attributes of the modelled builtin types
+                break
         try:
             return getattr(o, name)
         except AttributeError as ex:
-            raise PyRaise(PyExc(AttributeError, ex.args))
+            if isinstance(o, (int, float, str, bool, list, dict, tuple, set, frozenset, type(None), type, bytes, slice, range)):
+                raise PyRaise(PyExc(AttributeError, ex.args))
+            # a model object of the verifier lacks the attribute: a modelling gap, not behaviour of the program
+            raise Unsupported(f"attribute {name} of modelled object {type(o).__name__}")
 
     def raw_getattr(self, o, name):
         if name == "__dict__":
